@@ -19,7 +19,7 @@ typedef _Bool bool;
 typedef int type_t;
 typedef int stref_t;            /* "reference to the state object of type t" = fusion::at_key<t>(m_substate_list) */
 typedef int slist_t;            /* the substate list object */
-typedef struct { type_t type; int payload; } event_t;
+typedef struct { type_t type; int payload; _Bool wrapped; type_t active_state; } event_t;   /* wrapped: a library direct_entry_event<Target,Event> around (type,payload) */
 #define EV_EQ(a,b) ((a).type==(b).type && (a).payload==(b).payload)
 
 #define NR_CAP 8                /* array capacity only -- loops over regions carry loop/recursion contracts */
